@@ -185,10 +185,13 @@ def path_case(g, parts):
 def from_str_case(g):
     r = g.r
     delim = r.choice(["/", "/", ".", ":"])
-    toks = [r.choice(["a", "b", "inputs", "p1", "key", "x y", "0", "1", "12", "-3", "abc", "k1", "1.5", "0.1", "2.0", "10.25", "-0.5"])
+    toks = [r.choice(["a", "b", "inputs", "p1", "key", "x y", "0", "1", "12", "-3", "abc", "k1", "1.5", "0.1", "2.0", "10.25", "-0.5",
+                      "", "", "+1", " 1", "1_0"])
             for _ in range(r.choice([0, 1, 2, 3, 4]))]
     toks = [t for t in toks if delim not in t]
     s = delim.join(toks)
+    if s == "":
+        toks = []            # the empty string has no tokens (a lone empty key cannot be written)
     c = Case("from_str", {"str": s, "delim": delim})
     c.py = f"from valida.datapath import *\np = DataPath.from_str({s!r}, delimiter={delim!r})\nprint(p)"
     a = enc.outcome(lambda: DP.DataPath.from_str(s, delimiter=delim))
